@@ -454,11 +454,16 @@ func (l *commitLog) NewReverseReader(startOffset int64, uncommitted bool) (*Reve
 		return nil, ErrSegmentNotFound
 	}
 
+	scanner, err := newReverseSegmentScanner(seg, effectiveStart)
+	if err != nil {
+		return nil, err
+	}
+
 	return &ReverseReader{
 		log:         l,
 		segments:    segments,
 		segIdx:      segIdx,
-		scanner:     newReverseSegmentScanner(seg, effectiveStart),
+		scanner:     scanner,
 		stopOffset:  -1, // Read all the way to the beginning by default
 		uncommitted: uncommitted,
 	}, nil
